@@ -153,6 +153,7 @@ func init() {
 		if h := a.Str("h"); h != "" {
 			s.Vals[h] = o.Val
 			s.Bufs[h] = in
+			s.Bufs[h+"#rem"] = o.Rem // the remainder as the parser handed it back (C08: the caller may overwrite that too)
 		}
 		r := o.res()
 		queryStability(o, r)
